@@ -186,7 +186,11 @@ impl Segment3D {
         let normal = a.cross(b);
         let delta = self.start() - input.start();
 
-        if delta.cross(normal).is_zero() {
+        // The distance between the two supporting lines is |delta . normal| / |normal|:
+        // the segments can only meet when it vanishes (up to the tolerance used for
+        // comparing positions elsewhere in this crate).
+        const COPLANAR_TINY: Float = 1e-5;
+        if (delta * normal).abs() > COPLANAR_TINY * normal.length() {
             return None;
         }
 
